@@ -62,7 +62,8 @@ UNIT_TRUSTED["table_rpki"] = [
     "prelude p_table / p_table_rpki: packet::Nlri mirrored transparently (payload types opaque), Ipv4Addr/Ipv6Addr::octets as uninterpreted octet sequences of length 4 / 16, Attribute::{code,as_path_origin} uninterpreted, IpNet opaque with Clone = equal value, Source kept outside Verus (src_local_asn accessor shim)",
     "RpkiTable::key_to_addr (clone_from_slice / expect / unreachable!) trusted: total for keys produced by covering_key (4 or 16 octets + length)",
     "'covers' is defined on octets (covering_key_spec); the Kani harnesses c12_covering_key_v4 / _v6 prove the real covering_key equal to 'address with the low (width - len) bits cleared' for every address and length (complete)",
-    "NOT under contract: RpkiTable::{insert,remove,drop_source,state,iter} (nested get_mut on HashMap/PatriciaMap, foreign iterators, Arc::ptr_eq): the 'operations on a set keyed by (cache, prefix, max-length, AS)' clause of C12 is not covered; stored keys with host bits set (a cache sending non-canonical prefixes) are never matched — by construction of the lookup, and consistent with the spec",
+    "RpkiTable::insert / remove: the nested `get_mut`s into FnvHashMap<Family, PatriciaMap<..>> are R11b helpers returning `&mut` with assumed frame contracts (only that family's trie / that key's list changes: stated over final(..) of the returned reference), PatriciaMap::{insert,remove} as map updates, Vec::retain keeps exactly the elements satisfying the (verified) predicate; A-C12-2: `Arc::ptr_eq` on two cache handles coincides with equality of the cache address (one Arc per RTR session, distinct caches have distinct addresses); rpki_wf: both families have a trie (RpkiTable::new); #[verifier::loop_isolation(false)] on both",
+    "NOT under contract: RpkiTable::{drop_source,state,iter} (values_mut / iter_mut over the tries, foreign iterators): per-cache reset is not covered; stored keys with host bits set (a cache sending non-canonical prefixes) are never matched — by construction of the lookup, and consistent with the spec",
 ]
 
 UNIT_TRUSTED["table_policy"] = [
@@ -110,7 +111,7 @@ UNIT_TRUSTED["packet_encode"] = [
 ]
 
 # minimum number of functions that must produce obligations / of must-fail twins that must run
-FLOORS = {"daemon_fsm": 30, "daemon_gr": 4, "daemon_peer_tx": 9, "table_cmp": 20, "packet_validate": 1, "packet_parse": 1, "table_rpki": 3, "table_policy": 6, "daemon_export": 11, "packet_bmp": 6, "packet_mrt": 8, "packet_aspath": 8, "packet_encode": 4}
+FLOORS = {"daemon_fsm": 30, "daemon_gr": 4, "daemon_peer_tx": 9, "table_cmp": 20, "packet_validate": 1, "packet_parse": 1, "table_rpki": 5, "table_policy": 6, "daemon_export": 11, "packet_bmp": 6, "packet_mrt": 8, "packet_aspath": 8, "packet_encode": 4}
 TWIN_FLOORS = {"daemon_fsm": 8, "daemon_gr": 3, "daemon_peer_tx": 2, "table_cmp": 4, "packet_validate": 1, "packet_parse": 1, "table_rpki": 1, "table_policy": 1, "daemon_export": 1, "packet_bmp": 1, "packet_mrt": 1, "packet_aspath": 1, "packet_encode": 1}
 
 PLAN = {
